@@ -3,7 +3,7 @@ import ast
 
 from ..astx import (calls_in, dotted, norm, src, iter_nodes, assigned_targets, assigned_names,
                     const_value, is_const, parent_chain)
-from ..lib import (call_arg, relation, truth, other, cmp_views, core, holds_region, conditions, eval_conditions, relation_tests, atom_key, expand_condition, mode_mismatch_conditions, cfg_nodes_with_call, node_calls, returns, stmt_assigns_attr, callee_last,
+from ..lib import (guard_region, call_arg, relation, truth, other, cmp_views, core, holds_region, conditions, eval_conditions, relation_tests, atom_key, expand_condition, mode_mismatch_conditions, cfg_nodes_with_call, node_calls, returns, stmt_assigns_attr, callee_last,
                    is_name, is_self_attr, node_roots)
 from ..loader import AnalysisError
 from ..taint import Labels
@@ -71,6 +71,8 @@ def run(R):
     with R.clause('D1', 'FLOW', floor=12, desc='raw bytes reach delivery sinks only through the incremental decoder, exactly once') as c:
         for f in units:
             check_taint(c, f)
+    with R.clause('D5', 'FLOW', floor=2, desc='end of stream is recognised on the raw read result, never on decoder output') as c:
+        check_eof_test_raw(c, repo)
     with R.clause('D2', 'OWN', floor=6, desc='coders created once, never re-created, never final=True, no bytes.decode on a read path') as c:
         check_coders(c, repo, units)
     with R.clause('D3', 'ID', floor=2, desc='bytes-mode coder passes data through unchanged') as c:
@@ -81,6 +83,51 @@ def run(R):
             c.check(ok, f, rets[0].ast if rets else None, '_NullCoder.%s returns its argument' % m, kind='ast', tag='nullcoder-' + m)
     with R.clause('D4', 'CONFIG', floor=4, desc='bytes mode: BytesIO + pass-through coder; text mode: StringIO + incremental coders') as c:
         check_mode_selection(c, repo)
+
+
+def emptiness_test(e):
+    """(tested expression, outcome label on which it is EMPTY) for  x == b'' / x == '' / not x / x / len(x) == 0, else None"""
+    r = relation(e)
+    if r and r[0] == 'eq':
+        for a, b in ((r[1], r[2]), (r[2], r[1])):
+            if isinstance(b, ast.Constant) and b.value in (b'', ''):
+                return a, r[3]
+            if isinstance(b, ast.Constant) and b.value == 0 and isinstance(a, ast.Call) and dotted(a.func) == 'len' and a.args:
+                return a.args[0], r[3]
+        return None
+    co, lab = truth(e)
+    if isinstance(co, (ast.Name, ast.Attribute)):
+        return co, other(lab)
+    return None
+
+
+def check_eof_test_raw(c, repo):
+    """end of stream is recognised on the RAW read result: an empty recv()/os.read() means the peer closed, whereas the decoder
+    legitimately returns '' for a chunk that holds only the first bytes of a multi-byte character"""
+    n_units = 0
+    for q in ('socket_pexpect:SocketSpawn.read_nonblocking', 'spawnbase:SpawnBase.read_nonblocking'):
+        f = repo.func(q)
+        g = f.cfg
+        L = Labels(f, classify, param_labels={}, attr_labels={'self._buf': ['text']}).run()
+        eofs = [n for n in g.nodes if n in g.live_nodes() and n.kind == 'stmt' and
+                ((stmt_assigns_attr(n.ast, 'flag_eof') is not None and is_const(getattr(n.ast, 'value', None), True)))]
+        found = 0
+        for n in eofs:
+            for t in g.nodes:
+                if t.kind != 'test' or t.ast is None:
+                    continue
+                et = emptiness_test(t.ast)
+                if not et or n not in guard_region(g, t, et[1]):
+                    continue
+                found += 1
+                labs = set(L.labels_at(t, et[0])) - {'const'}
+                ok = 'raw' in labs and not (labs & {'text', 'double-decoded', 'chunk-decoded'})
+                c.check(ok, f, t.ast, 'end of stream is decided by the emptiness of the raw read result (before decoding)',
+                        witness='the tested value %s carries %s%s' % (norm(et[0]), sorted(labs),
+                                                                      '' if ok else ': decoder output is empty for a chunk that ends inside a multi-byte character, which would be reported as EOF'),
+                        kind='flow', tag='eof-raw:' + f.qual.split(':')[1])
+        n_units += found
+    c.need(n_units >= 2, 'expected an empty-read EOF test in the base and the socket read, found %d' % n_units)
 
 
 def check_taint(c, f):
@@ -157,6 +204,15 @@ def coder_freshness(repo, fi, expr, which, index=None, depth=0):
         return 'fresh', expr
     if isinstance(expr, ast.Call) and dotted(expr.func) == '_NullCoder':
         return 'fresh', expr
+    if isinstance(expr, ast.Call) and isinstance(expr.func, ast.Attribute) and expr.func.attr == 'incremental%s' % which:
+        # codecs.lookup(<enc>).incrementaldecoder(<errors>), possibly through a local holding the CodecInfo
+        b = expr.func.value
+        if isinstance(b, ast.Name):
+            defs = [n for n in iter_nodes(fi.node) if isinstance(n, ast.Assign) and b.id in assigned_names(n)]
+            if len(defs) == 1:
+                b = defs[0].value
+        if isinstance(b, ast.Call) and dotted(b.func) == 'codecs.lookup':
+            return 'fresh', expr
     if isinstance(expr, ast.Name):
         # local assigned in fi?
         defs = [n for n in iter_nodes(fi.node) if isinstance(n, ast.Assign) and expr.id in assigned_names(n)]
@@ -190,6 +246,10 @@ def coder_freshness(repo, fi, expr, which, index=None, depth=0):
         if not tg:
             return 'unknown', 'cannot resolve %s' % norm(expr.func)
         for t in tg:
+            # decorated with a cache?  then whatever it builds is built once and handed to every caller
+            if any('cache' in src(d) for d in t.node.decorator_list):
+                return 'shared', '%s is memoised (%s): the same stateful codec object is handed to every spawn with the same settings, ' \
+                                 'so the undecoded tail of one stream leaks into another' % (t.qual, ', '.join(src(d) for d in t.node.decorator_list))
             rets = [n for n in iter_nodes(t.node) if isinstance(n, ast.Return) and n.value is not None]
             if not rets:
                 return 'unknown', '%s returns nothing' % t.qual
@@ -245,8 +305,11 @@ def check_coders(c, repo, units):
             if dotted(call.func) == '_NullCoder':
                 c.ok(f, n, 'bytes mode: stateless pass-through coder', kind='flow', tag='fresh-' + attr + ':null')
                 continue
-            enc_ok = len(call.func.args) == 1 and (is_name(call.func.args[0], 'encoding') or norm(call.func.args[0]) in ('self.encoding',)
-                                                   or isinstance(call.func.args[0], ast.Name))
+            if isinstance(call.func, ast.Call):
+                enc_args = call.func.args
+            else:       # <CodecInfo>.incrementaldecoder(errors): the encoding is the argument of codecs.lookup
+                enc_args = [x for k2 in ast.walk(call) if isinstance(k2, ast.Call) and dotted(k2.func) == 'codecs.lookup' for x in k2.args] or [ast.Name(id='_', ctx=ast.Load())]
+            enc_ok = len(enc_args) == 1 and isinstance(enc_args[0], (ast.Name, ast.Attribute))
             err_ok = len(call.args) == 1 and not isinstance(call.args[0], ast.Constant)
             c.check(enc_ok and err_ok, f, n, '%s is a fresh codecs.getincremental%s(<encoding>)(<error policy>) object per spawn' % (attr, which),
                     witness=norm(call), kind='flow', tag='fresh-' + attr + ':text')
@@ -303,6 +366,8 @@ def check_mode_selection(c, repo):
 
 
 MUTANTS = [
+    ('socket-eof-after-decode', 'socket_pexpect', "                s = self.socket.recv(size)\n                if s == b'':\n                    self.flag_eof = True\n                    raise EOF(\"Socket closed\")\n                s = self._decoder.decode(s, final=False)\n", "                s = self._decoder.decode(self.socket.recv(size), final=False)\n                if not s:\n                    self.flag_eof = True\n                    raise EOF(\"Socket closed\")\n", 'D5'),
+    ('base-eof-after-decode', 'spawnbase', "        if s == b'':\n            # BSD-style EOF\n            self.flag_eof = True\n            raise EOF('End Of File (EOF). Empty string style platform.')\n\n        s = self._decoder.decode(s, final=False)\n", "        s = self._decoder.decode(s, final=False)\n        if len(s) == 0:\n            self.flag_eof = True\n            raise EOF('End Of File (EOF). Empty string style platform.')\n", 'D5'),
     ('base-chunk-decode', 'spawnbase', "        s = self._decoder.decode(s, final=False)\n        self._log(s, 'read')", "        if self.encoding is not None:\n            s = s.decode(self.encoding, self.codec_errors)\n        self._log(s, 'read')", 'D1'),
     ('base-final-true', 'spawnbase', "        s = self._decoder.decode(s, final=False)\n        self._log(s, 'read')", "        s = self._decoder.decode(s, final=True)\n        self._log(s, 'read')", 'D2'),
     ('base-fresh-decoder', 'spawnbase', "        s = self._decoder.decode(s, final=False)\n        self._log(s, 'read')", "        if self.encoding is not None:\n            self._decoder = codecs.getincrementaldecoder(self.encoding)(self.codec_errors)\n        s = self._decoder.decode(s, final=False)\n        self._log(s, 'read')", 'D2'),
@@ -320,6 +385,8 @@ MUTANTS = [
     ('text-mode-bytesio', 'spawnbase', "            self.buffer_type = StringIO", "            self.buffer_type = BytesIO", 'D4'),
 ]
 PRESERVING = [
+    ('coders-lookup-form', 'spawnbase', "            self._encoder = codecs.getincrementalencoder(encoding)(codec_errors)\n            self._decoder = codecs.getincrementaldecoder(encoding)(codec_errors)\n",
+     "            info = codecs.lookup(encoding)\n            self._encoder = info.incrementalencoder(codec_errors)\n            self._decoder = info.incrementaldecoder(codec_errors)\n"),
     ('coders-tuple-assign', 'spawnbase', "            self._encoder = codecs.getincrementalencoder(encoding)(codec_errors)\n            self._decoder = codecs.getincrementaldecoder(encoding)(codec_errors)\n",
      "            self._encoder, self._decoder = (codecs.getincrementalencoder(encoding)(codec_errors),\n                                            codecs.getincrementaldecoder(encoding)(codec_errors))\n"),
     ('decode-no-kw', 'spawnbase', "        s = self._decoder.decode(s, final=False)\n        self._log(s, 'read')", "        s = self._decoder.decode(s)\n        self._log(s, 'read')"),
